@@ -92,6 +92,10 @@ class ConnSession:
         if self.spec.get("open_fails"):
             import serial
             raise serial.SerialException("could not open port")
+        self.nopen = getattr(self, "nopen", 0) + 1
+        if self.nopen > 1 and self.spec.get("second"):
+            self.dev2 = make_device(self.spec["second"].get("device"), None)
+            return sched.VSerial(self.dev2)
         self.dev = make_device(self.spec.get("device"), None)
         port = sched.VSerial(self.dev)
         wf = self.spec.get("write_fault_after")
@@ -159,6 +163,10 @@ class ConnSession:
                 c.unregister_message_callback(self._msg_cb(op[1]))
             elif k == "close":
                 c.close()
+            elif k == "close2":
+                self.conn2.close()
+            elif k == "put2":
+                self.conn2.put(op[1], op[2], op[3])
             elif k == "snap":
                 res = list(c.get_communication_log_items())
             elif k == "connected":
@@ -196,6 +204,11 @@ class ConnSession:
         except BaseException as e:  # noqa: BLE001
             exc = e
         api.emit("ret", call=ev["seq"], op=["connect"], ctx="U", exc=type(exc).__name__ if exc else None, msg=str(exc)[:200] if exc else None, res=None)
+        if spec.get("second"):
+            # a second, independent connection in the same process (its reader / sender threads are R2 / S2)
+            self.conn2 = YC.YncaConnection("virtual://port2")
+            self.conn2.register_message_callback(lambda st, su, fn, val: (api.emit("msg_cb2", su=su, fn=fn, val=val), api.emit("msg_cb2_ret")))
+            self.conn2.connect(lambda: (api.emit("disc_cb2"), api.emit("disc_cb2_ret")), 0)
         threads = spec.get("threads", [[]])
 
         def body(i):
@@ -211,6 +224,8 @@ class ConnSession:
             for t in self.threads:
                 t.join()
             self.do(["close"], ctx="U0-final")
+            if spec.get("second"):
+                self.do(["close2"], ctx="U0-final")
             api.sleep(5)
         return "done"
 
